@@ -210,6 +210,8 @@ class Session:
                 park(b"\x83\x70\x00\x10\x20\x09" + bytes(18), "OTHER")
             elif base == "hsr":
                 park(landev.v3_plain_packet(1, 0, bytes(64)), "HSR", 0, False)
+            elif base == "noise":                    # line noise: bytes without a start marker
+                park(getattr(self, "noise_bytes", b"\x01\x02\x03"), "NOISE", 0, False)
             if "+unsolicited" in cls:
                 park(landev.v3_enc_packet(key, landev.v2_wrap(acdev_state_frame()), 77), "ENC", k, True)
         elif kind == "data":
